@@ -50,6 +50,39 @@ func (w *FaultWriter) Write(p []byte) (int, error) {
 type InjectedError struct {
 	Where string
 	N     int
+	// Timeoutish makes the error look like a network timeout (Timeout() and Temporary() true).
+	Timeoutish bool
+	// Wraps, if set, is returned by Unwrap: the injected failure then "is" that error for
+	// errors.Is (context.Canceled, io.EOF, sse.ErrNoTopic ...) while remaining a failure of its own.
+	Wraps error
 }
 
-func (e *InjectedError) Error() string { return fmt.Sprintf("injected failure at %s #%d", e.Where, e.N) }
+func (e *InjectedError) Error() string {
+	s := fmt.Sprintf("injected failure at %s #%d", e.Where, e.N)
+	if e.Timeoutish {
+		s += " (i/o timeout)"
+	}
+	if e.Wraps != nil {
+		s += ": " + e.Wraps.Error()
+	}
+	return s
+}
+func (e *InjectedError) Timeout() bool   { return e.Timeoutish }
+func (e *InjectedError) Temporary() bool { return e.Timeoutish }
+func (e *InjectedError) Unwrap() error   { return e.Wraps }
+
+// ErrKinds lists the flavours injected failures come in (index 0 = plain).
+var ErrKinds = []string{"plain", "timeout", "wraps_canceled", "wraps_deadline", "wraps_eof", "wraps_no_topic", "wraps_provider_closed", "wraps_os_deadline"}
+
+// NewInjected builds an injected error of the given kind.
+func NewInjected(where string, n int, kind string, wrapTargets map[string]error) *InjectedError {
+	e := &InjectedError{Where: where, N: n}
+	switch kind {
+	case "timeout":
+		e.Timeoutish = true
+	case "plain", "":
+	default:
+		e.Wraps = wrapTargets[kind]
+	}
+	return e
+}
